@@ -43,8 +43,9 @@ def patterns(w, tier):
 
 
 class WHarness:
-    def __init__(self, fam, bname, lock_byte, variant, row, chooser):
+    def __init__(self, fam, bname, lock_byte, variant, row, chooser, sa=None):
         self.fam, self.chooser, self.variant = fam, chooser, variant
+        self.sa = sa if sa is not None else (GEAR_ADDR if fam == "gear" else DEV_ADDR)
         unlock = 0x5A if variant == "unlock5a" else 0x55
         last = None
         if variant == "short-bank":
@@ -56,12 +57,12 @@ class WHarness:
             self.bank.refuse = {row[4]}
         by = MI.make_bank(bname, "zero", lock_byte=0x55)
         if fam == "gear":
-            self.unit = G.Gear(short=GEAR_ADDR, banks={self.bank.number: self.bank})
-            self.byunit = G.Gear(short=GEAR_ADDR + 1, banks={by.number: by})
+            self.unit = G.Gear(short=self.sa, banks={self.bank.number: self.bank})
+            self.byunit = G.Gear(short=(self.sa + 1) % 64, banks={by.number: by})
             self.bus = G.Bus([self.unit, self.byunit])
         else:
-            self.unit = D.Device(short=DEV_ADDR, banks={self.bank.number: self.bank})
-            self.byunit = D.Device(short=DEV_ADDR + 1, banks={by.number: by})
+            self.unit = D.Device(short=self.sa, banks={self.bank.number: self.bank})
+            self.byunit = D.Device(short=(self.sa + 1) % 64, banks={by.number: by})
             self.bus = D.Bus24([self.unit, self.byunit])
         self.by = by
         self.initial = list(self.bank.cells)
@@ -71,7 +72,7 @@ class WHarness:
 
     def addr(self):
         from dali.address import GearShort, DeviceShort
-        return GearShort(GEAR_ADDR) if self.fam == "gear" else DeviceShort(DEV_ADDR)
+        return GearShort(self.sa) if self.fam == "gear" else DeviceShort(self.sa)
 
     def execute(self, cmd):
         from dali import frame as F
@@ -102,7 +103,7 @@ def run_write(cfg, ch):
     vals = lib_values()
     row = M.by_name()[(cfg["bank"], cfg["name"])]
     cls = vals[(cfg["bank"], cfg["name"])]
-    h = WHarness(cfg["fam"], cfg["bank"], cfg["lock"], cfg["variant"], row, ch)
+    h = WHarness(cfg["fam"], cfg["bank"], cfg["lock"], cfg["variant"], row, ch, sa=cfg.get("sa"))
     raw = bytes.fromhex(cfg["raw"])
     kw = dict(cfg.get("opts", {}))
     try:
@@ -205,11 +206,34 @@ def shards(tier):
     for r in M.VALUES:
         out.append(("value", r[0], r[1], tier))
     out.append(("latch", tier))
+    for a0 in range(0, 64, 16):
+        out.append(("addr_sweep", a0, a0 + 16))
     return out
 
 
 def run_shard(shard):
     res = new_result()
+    if shard[0] == "addr_sweep":
+        # the same writes addressed to EVERY short address (gear and device), one fault at every answering step
+        byname = M.by_name()
+        targets = [k for k in byname if M.writable(byname[k])]
+        pick = [targets[0], targets[len(targets) // 2], targets[-1]]
+        for sa in range(shard[1], shard[2]):
+            for fam in ("gear", "device"):
+                for key in pick:
+                    row = byname[key]
+                    w = M.width(row)
+                    raw = bytes((0x21 + 5 * i) & 0x7F for i in range(w))
+                    for lock in (0xFF, 0x55):
+                        cfg = dict(bank=key[0], name=key[1], raw=raw.hex(), fam=fam, lock=lock, variant="standard", opts={}, sa=sa)
+                        for ch, obs in explore(lambda c: run_write(cfg, c), bound=1 if lock == 0xFF else 0):
+                            h, row_, kind, val, n = obs
+                            r = judge(res, cfg, h, row, kind, val, n)
+                            res["evaluations"] += 1
+                            res["transitions"] += n
+                            res["distinct"].add(("addr_sweep", key[1], r))
+        sample(res, {"address_sweep": [shard[1], shard[2] - 1], "values": [k[1] for k in pick]})
+        return res
     if shard[0] == "latch":
         for bname, b in M.BANKS.items():
             for fam in ("gear", "device"):
@@ -320,7 +344,7 @@ def replay(case):
     res = new_result()
     if case["t"] == "latch":
         return run_shard(("latch", "quick"))["violations"]
-    cfg = {k: case[k] for k in ("bank", "name", "raw", "fam", "lock", "variant", "opts", "via", "value") if k in case}
+    cfg = {k: case[k] for k in ("bank", "name", "raw", "fam", "lock", "variant", "opts", "via", "value", "sa") if k in case}
     row = M.by_name()[(cfg["bank"], cfg["name"])]
     nf = len(case.get("injected", []))
     for ch, obs in explore(lambda c: run_write(cfg, c), bound=nf):
